@@ -194,6 +194,12 @@ def _grid(case, ctx, g):
         out = gk(full, full).to_dense()
     ref = _eager(gk.base_kernel, full, full)
     ctx.close("grid_kernel_dense", out, ref, (1e-9, 1e-9), cls=f"grid:{d}d:{'toeplitz' if case['toeplitz'] else 'dense'}")
+    # off the structured path the kernel is its base kernel: other point sets of the grid's own shape (shifted, permuted),
+    # of another size, and the grid in second position
+    with S.use_toeplitz(case["toeplitz"]), torch.no_grad():
+        for tag, other in (("shifted", full + 0.013), ("permuted", full.flip(0)), ("random_same_shape", util.randn(g, *full.shape)), ("fewer", full[: max(1, full.shape[0] // 2)] * 0.9)):
+            ctx.close("grid_kernel_dense", gk(full, other).to_dense(), _eager(gk.base_kernel, full, other), (1e-9, 1e-9), cls=f"grid:cross:{tag}")
+            ctx.close("grid_kernel_dense", gk(other, full).to_dense(), _eager(gk.base_kernel, other, full), (1e-9, 1e-9), cls=f"grid:cross_rev:{tag}")
     # the flattened grid is the one the interpolation indices address: first data dimension slowest
     rowmajor = torch.cartesian_prod(*grid).reshape(-1, d)
     ctx.expect("grid_order_matches_interpolation_index", torch.equal(full, rowmajor), "GridKernel.full_grid is not in the order Interpolation.interpolate indexes (first dimension slowest)", sizes=sizes)
